@@ -33,7 +33,8 @@ var dnsNames = []string{"A", "AAAA", "CNAME", "TXT", "HTTPS", "MX", "PTR"}
 var baseDomains = []string{"example.org", "google.com", "google.co.uk", "notgoogle.com", "a.com", "b.net",
 	"city.kobe.jp", "foo.kobe.jp", "x.github.io", "www.ck", "t.ck", "example.local", "sub.example.org",
 	"evil.example.org.attacker.com", "ads.example.com", "cdn1.a.com", "x-y.net", "blogspot.com", "me.blogspot.com",
-	"localhost", "com"} // single labels: a source host without a dot, a bare TLD
+	"localhost", "com", // single labels: a source host without a dot, a bare TLD
+	"Example.ORG", "CDN.Example.org"} // letter case is kept as written on both sides
 var wildDomains = []string{"google.*", "example.*", "a.*", "kobe.*", "github.*", "x.google.*"}
 var wildSuffixes = []string{"com", "co.uk", "local", "github.io", "org", "kobe.jp", "x.kobe.jp", "net", "ck", "www.ck", "blogspot.com", "de"}
 var ctagVocab = []string{"phone", "pc", "user_child", "a", "b", "zz", "device_tv", "0"}
